@@ -23,7 +23,7 @@ MANIFEST = {
             "harvested constructor kinds over all boxes [1,hi], hi<=4, is re-evaluated in exact rationals at every "
             "integer point of its box and the returned verdict is checked pointwise (monotonicity along the symbol "
             "for derivative verdicts); right level because the comparator is a pure function of small symbolic inputs",
-    "note": "trusted: python Fractions, the R-signmono evaluator; harvested boxes with more than 20000 points are "
+    "note": "trusted: python Fractions, the R-signmono evaluator; harvested boxes with more than 4096 points are "
             "checked on a deterministic sub-grid; synthetic depth 3 is a typed sub-family, not all trees",
     "technique": "bounded exhaustive input enumeration (explicit-state) vs reference model",
 }
@@ -131,26 +131,38 @@ def spec_family(quick: bool):
                   "params": {"GlobalBufferSize": gb, "RegFileSize": rf, "Fanout": fan,
                              "MMThr": thr[0], "GBThr": thr[1], "RFThr": thr[2]}})
 
+    # >= 1000 partial tile shapes are needed before the mapper derives Pareto goals mid-enumeration (the only
+    # path that hands energy / latency terms to the comparator): rank bounds 12 / 10 on the 3-level arch.
+    # Finite throughputs on all three memories keep a two-argument Max in the latency objective.
+    if quick:
+        simple(4, 4, False)
+        simple(4, 4, True)
+        simple(6, 4, False, gb=64, thr=2)
+        simple(6, 4, True, gb=64, thr=2)
+        simple(5, 4, True, gb=64, thr=2)
+        simple(12, 6, True, gb=128, thr=2)
+        pe(4, 4, False, gb=256, rf=64)
+        pe(12, 12, True)
+        pe(12, 12, False, thr=(1, 1, 1))
+        pe(12, 12, True, thr=(1, 1, 1))
+        pe(10, 10, True, thr=(1, 1, 1))
+        return S
     for imp in (False, True):
         simple(2, 2, imp)
         simple(4, 4, imp)
         simple(6, 4, imp, gb=64, thr=2)
         simple(12, 6, imp, gb=128, thr=2)
         simple(5, 4, imp, gb=64, thr=2)
-        # >= 1000 partial tile shapes are needed before the mapper derives Pareto goals mid-enumeration
-        # (the only path that hands energy / latency terms to the comparator): bounds 12 / 10, 3 levels
         pe(12, 12, imp)
         pe(12, 12, imp, thr=(1, 1, 1))
+        pe(12, 6, imp, thr=(0.5, 2, 4))
+        pe(6, 12, imp, fan=2, thr=(2, 1, "inf"))
+        pe(10, 10, imp)
+        pe(12, 12, imp, fan=2, thr=(1, 4, 2))
     pe(4, 4, False, gb=256, rf=64)
     pe(10, 10, True, thr=(1, 1, 1))
-    if not quick:
-        for imp in (False, True):
-            pe(12, 6, imp, thr=(0.5, 2, 4))
-            pe(6, 12, imp, fan=2, thr=(2, 1, "inf"))
-            pe(10, 10, imp)
-            pe(12, 12, imp, fan=2, thr=(1, 4, 2))
-        pe(6, 6, True, thr=(1, 1, 1))
-        pe(7, 7, True, thr=(1, 1, 1))
+    pe(6, 6, True, thr=(1, 1, 1))
+    pe(7, 7, True, thr=(1, 1, 1))
     return S
 
 
@@ -248,6 +260,25 @@ def harvest_shard(item):
     spy_g._c09_spy = spy_d._c09_spy = True
     spy_g._c09_orig, spy_d._c09_orig = orig_g, orig_d
     mts.geq_leq_zero, mts.diff_geq_leq_zero = spy_g, spy_d
+
+    # third observation point: the patched MinMaxBase._is_connected (decides which Max/Min arguments are dropped)
+    conn_orig = mts._is_connected_cached.__func__
+    big = max(cfg["M"], cfg["KN"])
+
+    def spy_c(cls, x, y):
+        r = conn_orig(cls, x, y)
+        if r is not False and x != y:
+            try:
+                fs = x.free_symbols | y.free_symbols
+                key = ("c", (x, y), None, tuple(sorted(((t, 1, big) for t in fs), key=lambda t: str(t[0]))), False,
+                       r if r is True else r.__name__, 0)
+                calls[key] = calls.get(key, 0) + 1
+                n_calls[0] += 1
+            except Exception:
+                pass
+        return r
+
+    mts._MinMaxBase._is_connected = classmethod(spy_c)
     n_jobs = n_abort = n_rows = 0
     aborts = {}
     try:
@@ -262,6 +293,7 @@ def harvest_shard(item):
                 aborts[k] = aborts.get(k, 0) + 1
     finally:
         mts.geq_leq_zero, mts.diff_geq_leq_zero = orig_g, orig_d
+        mts._MinMaxBase._is_connected = mts._is_connected_cached
     out = [{"kind": k[0], "f": k[1], "s": k[2], "bounds": k[3], "flag": k[4], "verdict": k[5],
             "depth": k[6], "count": c, "spec": cfg["name"], "imperfect": cfg["imperfect"]}
            for k, c in calls.items()]
@@ -327,6 +359,8 @@ def descriptors(f) -> frozenset:
                             rest |= b.free_symbols
                     if rest & base.free_symbols:
                         d.add("sym*" + _ceil_tag(base))
+    for x in [x for x in d if x.startswith("sym*")]:
+        d.discard(x[4:])
     if not d:
         d.add("rational")
     return frozenset(d)
@@ -376,7 +410,7 @@ def judge(kind, f, s, bounds, flag, verdict):
     """-> dict(validated, truth, bad=None|{...}, cls, reduced).  ``verdict`` is an enum name or raise:*."""
     bounds = list(bounds)
     if verdict.startswith("raise:"):
-        return {"validated": True, "truth": "n/a", "bad": None, "cls": "exception", "reduced": False}
+        return {"validated": False, "truth": "n/a", "bad": None, "cls": "exception:" + verdict[6:], "reduced": False}
     claim = VERD[verdict]
     try:
         if kind == "g":
@@ -469,7 +503,8 @@ def check_call(origin, kind, f, s, bounds, flag, captured=None, meta=None):
             desc = "+".join(sorted(descriptors(f)))
             claim = VERD[v]
             fam = f"{origin}/{j['check']}{'-tdncz' if flag else ''}/{desc}/{claim}"
-            note = {"which_verdict": which, "counter_point": j["bad"], "truth_over_box": j["truth"]}
+            note = {"which_verdict": which, "counter_point": j["bad"], "truth_over_box": j["truth"],
+                    "suspected_cause": _cause(f, kind, flag, len(bounds))}
             if origin == "synthetic":
                 note["harvested_formula_with_same_pattern"] = _witness(f)
             if kind == "d" and "point" in j["bad"] and s is not None:
@@ -494,11 +529,27 @@ def check_call(origin, kind, f, s, bounds, flag, captured=None, meta=None):
                   sample=sample, evaluations=1, outcome_class=cls)
 
 
+def _cause(f, kind, flag, nsym):
+    if f.has(sympy.ceiling):
+        return "ceiling(x) is replaced by x before the range analysis (_compare_to_zero, make_tile_shapes.py:206-210)"
+    if kind == "d" and f.has(sympy.Max, sympy.Min):
+        return ("partition_heaviside tries only all-Heavisides=1 and all-Heavisides=0, never the complementary "
+                "assignments a Max/Min derivative takes (make_tile_shapes.py:143-146, 215-216)")
+    if flag:
+        return ("with terms_do_not_cross_zero an inconclusive 'may be < 0' is turned into ALWAYS_LEQ "
+                "(make_tile_shapes.py:295-296 / 300-301)")
+    if nsym >= 2:
+        return ("sympy function_range over one symbol returns Interval(x, y) with symbolic, unordered endpoints; "
+                ".left/.right are trusted as min/max (make_tile_shapes.py:262-268)")
+    return "unclassified"
+
+
 def _witness(f):
     want = {d for d in descriptors(f) if d != "rational"}
     best = None
     for dset, s in _W.items():
-        if want <= set(dset):
+        have = set(dset) | {x[4:] for x in dset if x.startswith("sym*")}
+        if want <= have:
             if best is None or len(s) < len(best):
                 best = s
     if best is None:
@@ -565,7 +616,8 @@ def synth_family(allowed: frozenset, quick: bool):
     """-> (exprs, info).  Depth <= 2: every tree over {a,b,1,2,3}; depth 3: typed sub-family."""
     a, b = _symbols()
     leaves = [a, b, sympy.Integer(1), sympy.Integer(2), sympy.Integer(3)]
-    d1 = _dedupe(leaves + _apply_all(leaves, leaves, allowed))
+    l2 = leaves[:4] if quick else leaves  # quick: depth <= 2 over {a, b, 1, 2}
+    d1 = _dedupe(l2 + _apply_all(l2, l2, allowed))
     d2 = _dedupe(d1 + _apply_all(d1, d1, allowed))
     info = {"depth<=1": len(d1), "depth<=2": len(d2)}
     # depth 3, typed: op(X, Y) with X, Y from T2 = harvest-shaped terms of depth <= 2
@@ -609,6 +661,67 @@ def _dedupe(xs):
 
 
 # ======================================================================================
+# small pure phases: verdict combination, Min/Max construction
+# ======================================================================================
+
+SIGNSET = {"ALWAYS_GEQ_THAN_ZERO": {1, 0}, "ALWAYS_LEQ_THAN_ZERO": {-1, 0}, "ALWAYS_EQUAL_TO_ZERO": {0},
+           "UNKNOWN": {1, 0, -1}}
+
+
+def body_or(cfg):
+    """ComparisonResult.__or__: the combined verdict must cover both operands' sign sets."""
+    A, B = cfg
+    CR = _mts().ComparisonResult
+    try:
+        r = (CR[A] | CR[B]).name
+    except Exception as e:
+        r = "raise:" + type(e).__name__
+    need = SIGNSET[A] | SIGNSET[B]
+    sample = {"origin": "combine", "A": A, "B": B, "result": r}
+    viol = None
+    if r in SIGNSET and not SIGNSET[r] >= need:
+        viol = {"observed": f"{A} | {B} -> {r}", "expected": "a verdict that holds whenever either operand's does",
+                "family": f"combine/{VERD[A]}|{VERD[B]}->{VERD[r]}", "note": "ComparisonResult.__or__", "config": sample}
+    return Result(outcome=("or", A, B, r), nontrivial=(A != B), validated=r in SIGNSET, violation=viol,
+                  sample=sample, outcome_class="combine:" + VERD.get(r, "exception"))
+
+
+def minmax_terms():
+    a, b = _symbols()
+    leaves = [a, b, sympy.Integer(1), sympy.Integer(2), sympy.Integer(3)]
+    every = frozenset({"Add", "Mul", "Recip", "ceiling"})
+    return _dedupe(leaves + _apply_all(leaves, leaves, every))
+
+
+def body_mm(cfg):
+    """sympy.Max / sympy.Min built with the module's _is_connected_cached patch must equal max / min of the
+    arguments at every integer point (dropping a 'dominated' argument must be right for positive integers)."""
+    op, i, j = cfg
+    a, b = _S["syms"]
+    x, y = _S["mm"][i], _S["mm"][j]
+    _mts()  # the import installs the patch
+    e = (sympy.Max if op == "Max" else sympy.Min)(x, y)
+    syms = [a, b]
+    fe, fx, fy = (R.compile_expr(t, syms) for t in (e, x, y))
+    pick = max if op == "Max" else min
+    bad = None
+    for pt in itertools.product(range(1, 5), repeat=2):
+        want = pick(Fraction(fx(*pt)), Fraction(fy(*pt)))
+        got = Fraction(fe(*pt))
+        if got != want:
+            bad = {"point": {"a": pt[0], "b": pt[1]}, "value": R.fr(got), "want": R.fr(want)}
+            break
+    collapsed = not isinstance(e, (sympy.Max, sympy.Min)) or len(e.args) < 2
+    sample = {"origin": "minmax-construct", "op": op, "x": sympy.srepr(x), "y": sympy.srepr(y), "built": str(e)}
+    viol = None
+    if bad is not None:
+        viol = {"observed": f"{op}({x}, {y}) was built as {e}", "expected": f"pointwise {op.lower()} of the arguments",
+                "family": f"minmax-construct/{op}/wrong-simplification", "note": {"counter_point": bad}, "config": sample}
+    return Result(outcome=(op, collapsed, bad is None), nontrivial=collapsed and x != y, validated=True, violation=viol,
+                  sample=sample, outcome_class=f"minmax:{op}:{'collapsed' if collapsed else 'kept'}")
+
+
+# ======================================================================================
 # explorer glue
 # ======================================================================================
 
@@ -616,9 +729,43 @@ _H: dict = {}
 _S: dict = {}
 
 
+def check_connected(x, y, bounds, verdict, meta=None):
+    """A recorded MinMaxBase._is_connected(x, y) answer: 'Max' claims x >= y, 'Min' claims x <= y, everywhere."""
+    bounds = list(bounds)
+    sample = {"origin": "harvested", "call": "c", "x": sympy.srepr(x), "y": sympy.srepr(y), "f_str": f"{x}  vs  {y}",
+              "bounds": [[sympy.srepr(b[0]), int(b[1]), int(b[2])] for b in bounds], "box": _jb(bounds),
+              "captured": str(verdict), "flag": False, "s_str": None}
+    if meta:
+        sample.update(meta)
+    try:
+        p = R.sign_profile(x - y, bounds, **CAPS)
+    except R.Unevaluable:
+        return Result(outcome=("c", str(verdict), "unevaluable"), validated=False, sample=sample,
+                      outcome_class="connected:not-evaluable")
+    truth = R.sign_class(p)
+    bad = None
+    if truth == "undefined":
+        return Result(outcome=("c", str(verdict), truth), validated=False, sample=sample,
+                      outcome_class="connected:undefined")
+    if str(verdict) == "Max" and p["min"] < 0:
+        bad = {"point": _sym_of(bounds, p["argmin"]), "x-y": R.fr(p["min"]), "demand": "x >= y"}
+    elif str(verdict) == "Min" and p["max"] > 0:
+        bad = {"point": _sym_of(bounds, p["argmax"]), "x-y": R.fr(p["max"]), "demand": "x <= y"}
+    elif str(verdict) == "True" and truth != "zero":
+        bad = {"point": _sym_of(bounds, p["argmax"]), "x-y": R.fr(p["max"]), "demand": "x == y"}
+    viol = None
+    if bad is not None:
+        viol = {"observed": f"_is_connected({x}, {y}) -> {verdict}", "expected": f"sign of x-y over the box: {truth}",
+                "family": f"harvested/minmax-connected/{verdict}", "note": {"counter_point": bad}, "config": sample}
+    return Result(outcome=("c", str(verdict), truth), nontrivial=len(bounds) > 0, validated=True, violation=viol,
+                  sample=sample, outcome_class=f"connected:{verdict}" + ("|subgrid" if p.get("reduced") else ""))
+
+
 def body_h(cfg):
     rec = _H["calls"][cfg[1]]
     meta = {"spec": rec["spec"], "imperfect": rec["imperfect"], "depth": rec["depth"], "count": rec["count"]}
+    if rec["kind"] == "c":
+        return check_connected(rec["f"][0], rec["f"][1], rec["bounds"], rec["verdict"], meta)
     return check_call("harvested", rec["kind"], rec["f"], rec["s"], rec["bounds"], rec["flag"],
                       captured=rec["verdict"], meta=meta)
 
@@ -652,10 +799,7 @@ def synth_tree(chunks, quick):
             boxes = [(x, y) for x in ha for y in hb]
             deep = p[1] >= _S["n_depth2"]  # typed depth-3 formulas come after the depth <= 2 ones
             if quick:
-                if len(boxes) == 16 or deep:
-                    boxes = [boxes[-1]]  # hi = 4 for every symbol
-                else:
-                    boxes = [bx for bx in boxes if max(bx) in (0, 2, 4)]
+                boxes = [boxes[-1]]  # hi = 4 for every symbol
             elif deep:
                 boxes = [bx for bx in boxes if 1 not in bx]
             return boxes
@@ -680,9 +824,22 @@ def run(ctx):
     # warm-up in the parent (yaml loader, numba kernels, sympy caches) so that forked workers inherit it
     harvest_shard((fam[0], 0, 1, ctx.scratch))
 
+    # ---------------- verdict combination and Min/Max construction (tiny, pure) ----------------
+    names = list(SIGNSET)
+    from mc.explorer import product_tree
+    ctx.explore("combine", product_tree(names, names), body_or, shard_depth=1, distinct_by_construction=True, workers=1)
+    _S["syms"] = (a, b)
+    _S["mm"] = minmax_terms()
+    nmm = len(_S["mm"])
+    ctx.explore("minmax-construct", product_tree(["Max", "Min"], list(range(nmm)), list(range(nmm))), body_mm,
+                shard_depth=2, distinct_by_construction=True)
+
     # ---------------- (a) harvest ----------------
-    nchunks = 4
-    items = [(cfg, c, nchunks, ctx.scratch) for cfg in fam for c in range(nchunks)]
+    items = []
+    for cfg in fam:
+        nchunks = 1 if cfg["arch"] == "simple" else 8
+        items += [(cfg, c, nchunks, ctx.scratch) for c in range(nchunks)]
+    items.sort(key=lambda it: it[0]["arch"] != "pe")  # long shards first
     k = ctx.seed % len(items)
     items = items[k:] + items[:k]
     shards = pmap(harvest_shard, items)
@@ -704,6 +861,8 @@ def run(ctx):
     _H["calls"] = calls
     harvested_kinds = set()
     for c in calls:
+        if c["kind"] == "c":
+            continue
         try:
             harvested_kinds |= kinds_of(c["f"])
             ds = descriptors(c["f"])
@@ -750,11 +909,11 @@ def run(ctx):
 
     ctx.bound(harvest_specs=[c["name"] for c in fam],
               harvested_box="every integer of [1, rank bound] per symbol of the formula; at most 12 points per axis; "
-                            "boxes with more than 20000 points are thinned to a deterministic sub-grid (class '|subgrid')",
-              synthetic_depth="all trees of depth <= 2 over {a,b,1,2,3}; depth 3: op(X,Y) with "
+                            "boxes with more than 4096 points (1024 for the exact df/ds) are thinned to a deterministic sub-grid (class '|subgrid')",
+              synthetic_depth="all trees of depth <= 2 over " + ("{a,b,1,2}" if q else "{a,b,1,2,3}") + "; depth 3 over {a,b,1,2,3}: op(X,Y) with "
                               + ("X a step term (ceiling of a quotient, Max/Min of leaves, Heaviside of a sum), Y a monomial (both orders), op in - *"
                                  if q else "X, Y in T2 = monomials, sums, step terms of depth <= 2, every binary op"),
-              synthetic_boxes=("depth<=2: hi=4 for every symbol, one-symbol formulas also hi=2; depth 3: hi=4" if q else
+              synthetic_boxes=("lo=1, hi=4 for every symbol" if q else
                                "lo=1; depth<=2: every hi in {1..4} per symbol; depth 3: every hi in {2,3,4} per symbol"),
               synthetic_kinds=sorted(allowed))
 
@@ -766,6 +925,23 @@ def _parse(s):
 def replay(ctx, rec):
     cfg = rec["config"]
     _mts()
+    if cfg["origin"] == "combine":
+        r = body_or((cfg["A"], cfg["B"]))
+        return {"observed": r.outcome[-1], "violation": r.violation is not None}
+    if cfg.get("call") == "c":
+        bounds = tuple((_parse(b[0]), int(b[1]), int(b[2])) for b in cfg["bounds"])
+        x, y = _parse(cfg["x"]), _parse(cfg["y"])
+        mts = _mts()
+        now = mts._is_connected_cached.__func__(sympy.Max, x, y)
+        now = now if isinstance(now, bool) else now.__name__
+        r = check_connected(x, y, bounds, now)
+        return {"observed": f"_is_connected -> {now}", "violation": r.violation is not None}
+    if cfg["origin"] == "minmax-construct":
+        a, b = _symbols()
+        _S["syms"] = (a, b)
+        _S["mm"] = [_parse(cfg["x"]), _parse(cfg["y"])]
+        r = body_mm((cfg["op"], 0, 1))
+        return {"observed": (r.violation or {}).get("observed", "ok"), "violation": r.violation is not None}
     f = _parse(cfg["f"])
     s = _parse(cfg["s"]) if cfg.get("s") else None
     bounds = tuple((_parse(b[0]), int(b[1]), int(b[2])) for b in cfg["bounds"])
